@@ -333,6 +333,9 @@ func (env *Env) modLocs(e Expr) ([]modLoc, error) {
 				if t, ok := env.st.Heaps[s.V]; ok {
 					sort = t.Sort
 				}
+				if strings.HasPrefix(s.V, "glog:") || strings.HasPrefix(s.V, "spawned:") {
+					sort = SLog
+				}
 				return []modLoc{{s.V, sort, LCell, Term{}}}, nil
 			}
 		}
@@ -550,6 +553,10 @@ func NewExec(ctx *Ctx, fn *ssa.Function, fc *FuncContract, safety bool) *Exec {
 
 func (ex *Exec) Verify() {
 	fn, fc := ex.fn, ex.contract
+	if fc != nil && fc.NoSafety != "" {
+		ex.safety = false
+		ex.assumed["panic-freedom of "+fc.Key+" is not checked: "+fc.NoSafety] = true
+	}
 	if fn.Blocks == nil {
 		ex.unsupported("function %s has no body", fn.Name())
 		return
